@@ -46,6 +46,8 @@ def strategy(tier):
                     choices += ["int64"]
                 f["dtype"] = draw(st.sampled_from(choices))
         case["probe_key"] = draw(st.integers(0, 7))
+        # manually edited groups before saving (update_discretizer): [kind, feature selector, leader selector, flag]
+        case["edits"] = draw(st.lists(st.tuples(st.sampled_from(["group", "group", "replace", "nan"]), st.integers(0, 5), st.integers(0, 11), st.booleans()), max_size=3))
         return case
 
     return build_case()
@@ -126,6 +128,26 @@ def check_case(case) -> Outcome:
         return discard(f"fit-raised:{res.exc_type}", out.labels)
     if not list(obj.features):
         return discard("no-feature-kept", out.labels)
+    # ---- manual edits before saving
+    views = list(feature_views(obj, case))
+    for step, (kind, fsel, lsel, flag) in enumerate(case.get("edits", [])):
+        feat, raw, spec = views[fsel % len(views)]
+        order = obj.values_orders[feat]
+        non_nan = [l for l in order if not (isinstance(l, str) and l == "__NAN__")]
+        quantitative = spec["kind"] in ("continuous", "discrete")
+        if kind == "group" and len(non_nan) >= 2:
+            i = lsel % (len(non_nan) - 1)
+            d, k = (non_nan[i], non_nan[i + 1]) if flag else (non_nan[i + 1], non_nan[i])
+            edit = observe(obj.update_discretizer, feat, "group", d, k)
+        elif kind == "replace" and not quantitative and non_nan:
+            edit = observe(obj.update_discretizer, feat, "replace", non_nan[lsel % len(non_nan)], f"RENAMED_{step}")
+        elif kind == "nan" and non_nan and any(isinstance(l, str) and l == "__NAN__" for l in order):
+            edit = observe(obj.update_discretizer, feat, "group", float("nan"), non_nan[lsel % len(non_nan)])
+        else:
+            continue
+        if not edit.ok:
+            return discard(f"edit-raised:{edit.exc_type}", out.labels)  # edits are C17's subject
+        out.label(f"edited:{kind}")
     dumped = observe(lambda: json.dumps(obj.to_json()))
     if not dumped.ok:
         out.violate(f"to_json-not-serialisable:{dumped.bucket()}", f"json.dumps(to_json()) raised {dumped.exc!r}")
